@@ -1,5 +1,5 @@
 (* Property C08 - a rolling update of healthy children always completes and cleans up. Statements about Model/Rolling.v; the linear bound is proved on an abstract automaton (C08_terminates_linear_partial), its tie to sync_rolling_update is exercised by the correspondence runs. *)
-From MC Require Import Generated Model.Composite Model.TracePreds Model.Safe Model.Rolling Proofs.SafeLemmas Proofs.C04Proofs Proofs.C06Proofs Proofs.RollGate Proofs.C07Proofs Proofs.RollClaims Proofs.RollMoves Proofs.C08Proofs.
+From MC Require Import Generated Model.Composite Model.TracePreds Model.Safe Model.Rolling Proofs.SafeLemmas Proofs.C04Proofs Proofs.C06Proofs Proofs.RollGate Proofs.C07Proofs Proofs.RollClaims Proofs.RollMoves Proofs.C08Proofs Proofs.C08Termination.
 
 Theorem C08_never_waits_on_healthy :
   forall (c : ccfg) (pns : string) (observed : umap) (latest : prev) (rest : list prev) (cl : claims),
@@ -159,3 +159,44 @@ Theorem C08_same_name_not_deleted :
 Proof. exact (@C08_same_name_not_deleted). Qed.
 Print Assumptions C08_same_name_not_deleted.
 
+(* ---- termination of a rollout under a fair environment, over the real sync_rolling_update + prune ----
+   rworld = observed children + parent revisions (latest first) with their hook answers;
+   mu_w   = number of desired rolling children (latest answer, hook order) the latest revision does not list;
+   world_ok (boolean): no revision lists a (group, kind) twice, the latest answer and its desired map name
+            the same keys, every still-desired child the latest revision lists is ready (observed, up to date,
+            status checks pass, generation observed);
+   fair_step: one sync_rolling_update, prune, then the environment makes the children the latest revision
+            now lists healthy (nothing is assumed about children of older revisions; the hook answers stay,
+            their status may change). *)
+Theorem C08_fair_round_decreases :
+  forall (c : ccfg) (pns : string) (w : rworld) (st : rollout_state) (w' : rworld),
+    world_ok c pns w = true -> fair_step c pns w st w' ->
+    world_ok c pns w' = true /\
+    (st <> RComplete -> mu_w c pns w' < mu_w c pns w) /\
+    (st = RComplete -> mu_w c pns w' = 0 /\ List.length (w_prs w') = 1).
+Proof. exact C08_fair_round_decreases. Qed.
+Print Assumptions C08_fair_round_decreases.
+
+Theorem C08_complete_at_zero :
+  forall (c : ccfg) (pns : string) (w : rworld) (st : rollout_state) (w' : rworld),
+    world_ok c pns w = true -> fair_step c pns w st w' -> mu_w c pns w = 0 -> st = RComplete.
+Proof. exact C08_complete_at_zero. Qed.
+Print Assumptions C08_complete_at_zero.
+
+(* every chain of fair rounds reports RComplete from round mu_w w0 on (at most the number of desired
+   children), and then exactly one revision is left *)
+Theorem C08_rollout_terminates :
+  forall (c : ccfg) (pns : string) (w0 : rworld) (sts : list rollout_state) (w : rworld),
+    world_ok c pns w0 = true -> fair_run c pns w0 sts w ->
+    (forall j, mu_w c pns w0 <= j -> j < List.length sts -> nth j sts (RWaiting "") = RComplete) /\
+    (mu_w c pns w0 < List.length sts -> List.length (w_prs w) = 1) /\
+    mu_w c pns w0 <= match w_prs w0 with l :: _ => List.length (hr_children (pr_resp l)) | [] => 0 end.
+Proof. exact C08_rollout_terminates. Qed.
+Print Assumptions C08_rollout_terminates.
+
+Example C08_three_child_rollout :
+  world_ok ex_c "" ex_w0 = true /\ mu_w ex_c "" ex_w0 = 3 /\
+  fair_run ex_c "" ex_w0 [RProgressing "Thing" "a"; RProgressing "Thing" "b";
+                          RProgressing "Thing" "c"; RComplete] ex_w4 /\
+  List.length (w_prs ex_w4) = 1.
+Proof. exact C08_three_child_rollout. Qed.
